@@ -1,0 +1,117 @@
+/*
+ * Verification hooks (off unless the library is compiled with -DGALOIS_VERIF).
+ *
+ * With the guard off this header defines one empty macro and nothing else, so
+ * the library is unchanged. With the guard on it provides three function
+ * pointers a test harness may install:
+ *
+ *  - spinHook:   called on every spin-wait iteration (asmPause)
+ *  - pointHook:  called at named points that lie *between* critical sections
+ *                of the runtime's protocols (GALOIS_VERIF_POINT)
+ *  - regionHook: called when a pool thread enters (+1) / leaves (-1) the work
+ *                function of a parallel region
+ *
+ * The pointers are read with memory_order_relaxed so that the hooks add no
+ * synchronisation of their own.
+ */
+
+#ifndef GALOIS_SUBSTRATE_VERIF_H
+#define GALOIS_SUBSTRATE_VERIF_H
+
+#ifdef GALOIS_VERIF
+
+#include <atomic>
+
+namespace galois::verif {
+
+using SpinHook   = void (*)();
+using PointHook  = void (*)(unsigned id);
+using RegionHook = void (*)(unsigned tid, int delta);
+
+inline std::atomic<SpinHook> spinHook{nullptr};
+inline std::atomic<PointHook> pointHook{nullptr};
+inline std::atomic<RegionHook> regionHook{nullptr};
+
+//! named points; keep in sync with pointName()
+enum Point : unsigned {
+  CTX_ACQUIRE_LOCKED = 0, //!< Context.cpp: lock bit taken, owner not yet set
+  CTX_RELEASE_UNLINKED,   //!< Context.cpp: unlinked from nhood, not released
+  FE_BEFORE_LOCALTERM,    //!< Executor_ForEach::go before localTermination
+  FE_BEFORE_CHECKEMPTY,   //!< Executor_ForEach::go before checkEmpty
+  FE_ABORT_BEFORE_PUSH,   //!< abortIteration: locks released, item not queued
+  FE_COMMIT_BEFORE_PUSH,  //!< commitIteration: before push buffer is flushed
+  FE_COMMIT_AFTER_PUSH,   //!< commitIteration: pushes flushed, locks held
+  DOALL_STOLEN,           //!< Executor_DoAll: between stealWork and assignWork
+  DOALL_BEFORE_TERM,      //!< Executor_DoAll: before localTermination
+  TERM_PROP_TOKEN,        //!< Termination.h: between the two token stores
+  TERM_TREE_PROP,         //!< Termination.h: tree detector between propagations
+  TP_CASCADE,             //!< ThreadPool::cascade between the two wakeups
+  TP_DECASCADE,           //!< ThreadPool::decascade before publishing done
+  BAR_COUNTING_LAST,      //!< Barrier_Counting: count reset, sense not flipped
+  BAR_MCS_ARRIVED,        //!< Barrier_MCS: children seen, parent not told
+  BAR_MCS_WAKE,           //!< Barrier_MCS: between the two child wake-ups
+  BAR_DISS_ROUND,         //!< Barrier_Dissemination: between rounds
+  BAR_TOPO_ARRIVED,       //!< Barrier_Topo: arrival counted, not yet waiting
+  BAR_TOPO_WAKE,          //!< Barrier_Topo: between child wake-ups
+  BAR_SIMPLE_MID,         //!< Barrier_Simple: between the two one-way barriers
+  CHUNK_PUSH_FULL,        //!< Chunk.h: full chunk about to be handed off
+  CHUNK_POP_NEXT,         //!< Chunk.h: local chunk exhausted, fetching next
+  CHUNK_STEAL,            //!< Chunk.h/WorkListHelpers.h: about to steal
+  PTC_STEAL,              //!< PerThreadChunk.h: stolen chunk list in hand
+  PTC_POP_NEXT,           //!< PerThreadChunk.h: fetching next chunk
+  OBIM_LOG_PUBLISH,       //!< Obim.h: masterLog appended, version not bumped
+  OBIM_UPDATE_LOCAL,      //!< Obim.h: before replaying the master log
+  OBIM_SLOWPOP,           //!< Obim.h: entering slowPop
+  OBIM_EMPTY_BARRIER,     //!< Obim.h: between the barriers of empty()
+  BSP_FLIP,               //!< BulkSynchronous.h: between barrier and round flip
+  LQ_POP_GLOBAL,          //!< LocalQueue.h: local empty, going global
+  STABLE_STEAL,           //!< StableIterator.h: about to steal
+  SIMPLE_WL_POP,          //!< Simple.h: before locked pop
+  DET_ROUND,              //!< Executor_Deterministic: between phases
+  NUM_POINTS
+};
+
+inline const char* pointName(unsigned id) {
+  static const char* const names[] = {
+      "CTX_ACQUIRE_LOCKED", "CTX_RELEASE_UNLINKED", "FE_BEFORE_LOCALTERM",
+      "FE_BEFORE_CHECKEMPTY", "FE_ABORT_BEFORE_PUSH", "FE_COMMIT_BEFORE_PUSH",
+      "FE_COMMIT_AFTER_PUSH", "DOALL_STOLEN", "DOALL_BEFORE_TERM",
+      "TERM_PROP_TOKEN", "TERM_TREE_PROP", "TP_CASCADE", "TP_DECASCADE",
+      "BAR_COUNTING_LAST", "BAR_MCS_ARRIVED", "BAR_MCS_WAKE", "BAR_DISS_ROUND",
+      "BAR_TOPO_ARRIVED", "BAR_TOPO_WAKE", "BAR_SIMPLE_MID", "CHUNK_PUSH_FULL",
+      "CHUNK_POP_NEXT", "CHUNK_STEAL", "PTC_STEAL", "PTC_POP_NEXT",
+      "OBIM_LOG_PUBLISH", "OBIM_UPDATE_LOCAL", "OBIM_SLOWPOP",
+      "OBIM_EMPTY_BARRIER", "BSP_FLIP", "LQ_POP_GLOBAL", "STABLE_STEAL",
+      "SIMPLE_WL_POP", "DET_ROUND"};
+  return id < NUM_POINTS ? names[id] : "?";
+}
+
+inline void spin() {
+  SpinHook f = spinHook.load(std::memory_order_relaxed);
+  if (f)
+    f();
+}
+
+inline void point(unsigned id) {
+  PointHook f = pointHook.load(std::memory_order_relaxed);
+  if (f)
+    f(id);
+}
+
+inline void region(unsigned tid, int delta) {
+  RegionHook f = regionHook.load(std::memory_order_relaxed);
+  if (f)
+    f(tid, delta);
+}
+
+} // namespace galois::verif
+
+#define GALOIS_VERIF_POINT(id) ::galois::verif::point(::galois::verif::id)
+
+#else
+
+#define GALOIS_VERIF_POINT(id) ((void)0)
+
+#endif // GALOIS_VERIF
+
+#endif
